@@ -48,6 +48,37 @@ pub mod channel {
     use std::collections::VecDeque;
     use std::sync::Arc;
 
+    /// A timed wait under the simulated clock (one scheduler step = one millisecond): `poll` is
+    /// tried, the task yields, and the wait times out when the clock passes the deadline or when
+    /// the scheduler finds that every runnable task sits in a timed wait (nothing can happen before
+    /// the earliest deadline: the clock jumps there).
+    fn timed_wait<R>(d: std::time::Duration, mut poll: impl FnMut() -> Option<R>) -> Option<R> {
+        let me = task_id();
+        let ms = (d.as_millis().min(u64::MAX as u128 / 2) as u64).max(1);
+        let deadline = ctx::with(|c| c.clock_steps.saturating_add(ms)).unwrap_or(0);
+        loop {
+            if let Some(r) = poll() {
+                ctx::with(|c| {
+                    c.timed.remove(&me);
+                    c.timed_fire.remove(&me);
+                });
+                return Some(r);
+            }
+            let fire = ctx::with(|c| c.timed_fire.remove(&me) || c.clock_steps >= deadline).unwrap_or(true);
+            if fire {
+                ctx::with(|c| {
+                    c.timed.remove(&me);
+                });
+                ctx::fired("timeout_fired");
+                return None;
+            }
+            ctx::with(|c| {
+                c.timed.insert(me, deadline);
+            });
+            shuttle::thread::yield_now();
+        }
+    }
+
     pub struct SendError<T>(pub T);
     impl<T> std::fmt::Debug for SendError<T> {
         fn fmt(&self, f: &mut std::fmt::Formatter<'_>) -> std::fmt::Result {
@@ -406,9 +437,25 @@ pub mod channel {
             Ok(())
         }
 
-        /// time is not modelled: a timed send is a blocking send
-        pub fn send_timeout(&self, t: T, _d: std::time::Duration) -> Result<(), SendTimeoutError<T>> {
-            self.send(t).map_err(|e| SendTimeoutError::Disconnected(e.0))
+        /// a timed send under the simulated clock (a rendezvous channel: a blocking send)
+        pub fn send_timeout(&self, t: T, d: std::time::Duration) -> Result<(), SendTimeoutError<T>> {
+            if self.capacity() == Some(0) {
+                return self.send(t).map_err(|e| SendTimeoutError::Disconnected(e.0));
+            }
+            let mut item = Some(t);
+            let r = timed_wait(d, || match self.try_send(item.take().expect("item")) {
+                Ok(()) => Some(Ok(())),
+                Err(TrySendError::Disconnected(t)) => Some(Err(t)),
+                Err(TrySendError::Full(t)) => {
+                    item = Some(t);
+                    None
+                }
+            });
+            match r {
+                Some(Ok(())) => Ok(()),
+                Some(Err(t)) => Err(SendTimeoutError::Disconnected(t)),
+                None => Err(SendTimeoutError::Timeout(item.take().expect("item"))),
+            }
         }
 
         pub fn len(&self) -> usize {
@@ -517,20 +564,15 @@ pub mod channel {
             }
         }
 
-        /// time is not modelled: a timed receive on an empty, connected channel yields once and
-        /// then reports a timeout
-        pub fn recv_timeout(&self, _d: std::time::Duration) -> Result<T, RecvTimeoutError> {
-            match self.try_recv() {
-                Ok(t) => Ok(t),
-                Err(TryRecvError::Disconnected) => Err(RecvTimeoutError::Disconnected),
-                Err(TryRecvError::Empty) => {
-                    shuttle::thread::yield_now();
-                    match self.try_recv() {
-                        Ok(t) => Ok(t),
-                        Err(TryRecvError::Disconnected) => Err(RecvTimeoutError::Disconnected),
-                        Err(TryRecvError::Empty) => Err(RecvTimeoutError::Timeout),
-                    }
-                }
+        /// a timed receive under the simulated clock
+        pub fn recv_timeout(&self, d: std::time::Duration) -> Result<T, RecvTimeoutError> {
+            match timed_wait(d, || match self.try_recv() {
+                Ok(t) => Some(Ok(t)),
+                Err(TryRecvError::Disconnected) => Some(Err(RecvTimeoutError::Disconnected)),
+                Err(TryRecvError::Empty) => None,
+            }) {
+                Some(r) => r,
+                None => Err(RecvTimeoutError::Timeout),
             }
         }
 
